@@ -2,4 +2,4 @@
 From TV Require Import Base.Prelude Extract.Commands.
 Require Import ExtrOcamlBasic.
 Extraction Language OCaml.
-Extraction "model.ml" run_cmd n2b b2n.
+Extraction "model_core.ml" run_cmd n2b b2n.
